@@ -4,9 +4,9 @@ package main
 
 import (
 	"fmt"
-	"strings"
 	"go/types"
 	"sort"
+	"strings"
 
 	"golang.org/x/tools/go/ssa"
 )
